@@ -941,27 +941,59 @@ func c04R6(p *core.Prog, r *core.Report, trav *ssa.Function, rule string) {
 	} else {
 		name := p.FuncName(bc)
 		n := 0
-		core.Calls(bc, func(c ssa.CallInstruction) {
-			call, ok := c.(*ssa.Call)
-			if !ok {
-				return
-			}
-			cal := core.Callee(c)
-			if cal == nil || !(core.IsModMethod(cal, ".", "RegClient", "BlobGet") || core.IsModMethod(cal, ".", "RegClient", "BlobPut")) {
-				return
-			}
-			n++
-			dropped, at := errDropped(bc, call)
-			detail := "the error of " + cal.Name() + " reaches no `return nil`"
-			if dropped {
-				detail = "a failed " + cal.Name() + " can reach `return nil` at " + p.Pos(at.Pos()) + ": the parent is told the blob was copied and writes a manifest whose blob is missing"
-			}
-			if len(errEdgesOf(bc, call)) == 0 {
-				dropped = true
-				detail = "the error of " + cal.Name() + " is never tested"
-			}
-			r.Check(!dropped, rule, name, "error of "+cal.Name()+" propagates", p.Pos(c.Pos()), detail)
-		})
+		// the transfer may live in an unexported helper whose result BlobCopy returns
+		scope := core.Helpers(bc, 2)
+		for _, f := range sortedFuncs(scope) {
+			f := f
+			core.Calls(f, func(c ssa.CallInstruction) {
+				call, ok := c.(*ssa.Call)
+				if !ok {
+					return
+				}
+				cal := core.Callee(c)
+				if cal == nil || !(core.IsModMethod(cal, ".", "RegClient", "BlobGet") || core.IsModMethod(cal, ".", "RegClient", "BlobPut")) {
+					return
+				}
+				n++
+				// from the failure edge no `return nil` of BlobCopy (or of the helper) is reachable
+				dropped := false
+				var at ssa.Instruction
+				for _, e := range errEdgesOf(f, call) {
+					for in := range (core.DeepReach{Scope: scope}).FromEdge(e[0], e[1]) {
+						ret, isRet := in.(*ssa.Return)
+						if !isRet || len(ret.Results) == 0 {
+							continue
+						}
+						if core.IsNilConst(core.ReturnOperand(ret, len(ret.Results)-1)) {
+							dropped, at = true, ret
+						}
+					}
+				}
+				detail := "the error of " + cal.Name() + " reaches no `return nil`"
+				if dropped {
+					detail = "a failed " + cal.Name() + " can reach `return nil` at " + p.Pos(at.Pos()) + ": the parent is told the blob was copied and writes a manifest whose blob is missing"
+				}
+				if len(errEdgesOf(f, call)) == 0 {
+					// the call's error may be returned directly (`_, err = BlobPut(…); return err` or `return f(…)`)
+					direct := false
+					for _, ret := range core.Returns(f) {
+						if len(ret.Results) == 0 {
+							continue
+						}
+						for _, oc := range originCalls(core.ReturnOperand(ret, len(ret.Results)-1)) {
+							if oc == call {
+								direct = true
+							}
+						}
+					}
+					if !direct {
+						dropped = true
+						detail = "the error of " + cal.Name() + " is never tested"
+					}
+				}
+				r.Check(!dropped, rule, name, "error of "+cal.Name()+" propagates", p.Pos(c.Pos()), detail)
+			})
+		}
 		if n < 2 {
 			r.Undecided(rule, name, "transfer calls", p.Pos(bc.Pos()), "source BlobGet and target BlobPut not both found in BlobCopy")
 		}
